@@ -1176,6 +1176,9 @@ func (g *Gen) formatTerm(format string, vals []ssa.Value) string {
 		}
 		switch {
 		case (verb == 's' || verb == 'v') && flags == "":
+			if verb == 'v' && sortOf(arg.Type()) == SSlc {
+				return "" // %v of a slice is not its bytes
+			}
 			piece = "(fmt.any " + g.v(boxed) + ")"
 			if sortOf(arg.Type()) == SStr && arg != boxed {
 				if !hasStringMethod(arg.Type()) || inRepo(namedPkg(arg.Type())) {
